@@ -69,18 +69,23 @@ def problems_json(doc, opt):
     except Exception as e:
         return ["independent reader failed on the text (%s: %s)" % (type(e).__name__, str(e)[:200])], text, None
     problems = []
-    # content first (bundle keys read leniently: in the bundle's scope, else the document's), then the scope of the bundle keys
+    # content (bundle keys read leniently: in the bundle's scope, else the document's); the scope of the keys is judged separately
     if notes["structural_problems"]:
         problems.append("structural: %s" % notes["structural_problems"][:3])
     elif got != want:
         problems.append({"diff": strict.diff(want, got)})
-    if notes["bundle_ids_outside_document_scope"]:
-        problems.append("the key %r of the document-level 'bundle' object cannot be resolved with the document's own prefix declarations (only "
-                        "with those inside the bundle, where it denotes <%s>)" % tuple(notes["bundle_ids_outside_document_scope"][0]))
-    if notes["ambiguous_bundle_ids"]:
-        problems.append("the key %r of the document-level 'bundle' object denotes <%s> under the bundle's declarations but <%s> under the "
-                        "document's" % tuple(notes["ambiguous_bundle_ids"][0]))
-    return problems, text, None
+    return problems, text, notes
+
+
+def scope_problems(notes):
+    out = []
+    if notes and notes["bundle_ids_outside_document_scope"]:
+        out.append("the key %r of the document-level 'bundle' object cannot be resolved with the document's own prefix declarations (only "
+                   "with those inside the bundle, where it denotes <%s>)" % tuple(notes["bundle_ids_outside_document_scope"][0]))
+    if notes and notes["ambiguous_bundle_ids"]:
+        out.append("the key %r of the document-level 'bundle' object denotes <%s> under the bundle's declarations but <%s> under the "
+                   "document's" % tuple(notes["ambiguous_bundle_ids"][0]))
+    return out
 
 
 def problems_xml(doc, force, dest):
@@ -115,7 +120,7 @@ def judge(ctx, idx, case):
             common.drain_monitors(ctx, idx, case)
             return
         opt = c01.OPTS[case["opt"]]
-        problems, text, flag = problems_json(doc, opt)
+        problems, text, jnotes = problems_json(doc, opt)
         ctx.count("json_texts_read")
         rejudge = lambda c: problems_json(common.build(c["ops"]).doc, opt)[0]
     else:
@@ -132,7 +137,13 @@ def judge(ctx, idx, case):
                 break
         rejudge = lambda c: problems_xml(common.build(c["ops"]).doc, force, c["dest"])[0]
     common.tally_doc(ctx, doc)
-    if problems:
+    if case["fmt"] == "json" and not problems and scope_problems(jnotes):
+        fid = findings.bundle_scope_finding(ID, st, jnotes)
+        if fid:
+            ctx.known_finding(fid, scope_problems(jnotes)[0][:200], {"idx": idx})
+        else:
+            ctx.violation(idx, "independent json reading: %s" % scope_problems(jnotes)[0][:280], case, {"problems": scope_problems(jnotes), "text": (text or "")[:5000]})
+    elif problems:
         fid = findings.attribute(ID, case, rejudge)
         if fid:
             ctx.known_finding(fid, str(problems[0])[:200], {"idx": idx})
